@@ -32,6 +32,7 @@ registry! {
     "C23" => c23,
     "C24" => c24,
     "C07" => c07,
+    "C10" => c10,
     "C11" => c11,
     "C12" => c12,
     "C13" => c13,
